@@ -6,27 +6,13 @@
    Lines:  {"a":"cfg","acps":[..],"ents":{id:entry}}       configuration in force = pre-state
            {"a":"op","op":..,"id":..,"f":filter,"ml":[{"k","a","v":[..]}],"new":entry,
             "m":[candidate ids],"res":..,"post":{id: entry changed or created}} *)
-EXTENDS KAccess, Json, IOUtils
+EXTENDS KAccessNorm, Json, IOUtils
 Rec == ndJsonDeserialize(IOEnv.TRACE)
 VARIABLES l, c
 
-NEnt(x, r) == [id |-> x, live |-> r.live, sys |-> r.sys,
-               attrs |-> [a \in DOMAIN r.attrs |-> Range(r.attrs[a])], o2g |-> Range(r.o2g)]
-NEnts(o) == [x \in DOMAIN o |-> NEnt(x, o[x])]
-NProf(r) == [rk |-> r.rk, rg |-> Range(r.rg), tgt |-> r.tgt, srch |-> r.srch, sa |-> Range(r.sa),
-             mod |-> r.mod, pa |-> Range(r.pa), ra |-> Range(r.ra), pc |-> Range(r.pc), rc |-> Range(r.rc),
-             cre |-> r.cre, ca |-> Range(r.ca), cc |-> Range(r.cc), del |-> r.del]
-NProfs(s) == {NProf(s[i]) : i \in DOMAIN s}
-NId(r) == [u |-> r.u, mo |-> Range(r.mo), scope |-> r.scope, origin |-> r.origin, anon |-> r.anon,
-           cls |-> Range(r.cls), spu |-> Range(r.spu)]
-NMl(s) == [i \in DOMAIN s |-> [k |-> s[i].k, a |-> s[i].a, v |-> Range(s[i].v)]]
 ReviveMl == <<[k |-> "rem", a |-> "class", v |-> {"recycled"}]>>
 
 PostOf(Pre, r) == [x \in DOMAIN Pre \cup DOMAIN r.post |-> IF x \in DOMAIN r.post THEN NEnt(x, r.post[x]) ELSE Pre[x]]
-\* sync agreements that yield authority over attributes
-Yield(E) == [x \in {y \in DOMAIN E : "sync_account" \in Classes(E[y]) /\ "sync_yield_authority" \in DOMAIN E[y].attrs}
-               |-> E[x].attrs["sync_yield_authority"]]
-
 LineL1(C, r) ==
   LET S == NProfs(C.acps)  Pre == NEnts(C.ents)  id == NId(r.id)  Post == PostOf(Pre, r) IN
   r.res = "ok" =>
